@@ -246,19 +246,26 @@ def runDef (exe : List Str) (fs : List Field) (vs : List Value) (appendArgs : Li
 
 /-! ### parsing an argstr as written -/
 
-/-- remove every `...` (`str.replace("...", "")`) -/
-def removeDots : Str → Str
-  | [] => []
-  | [x] => [x]
-  | [x, y] => [x, y]
-  | x :: rest@(y :: z :: cs) => if x = '.' ∧ y = '.' ∧ z = '.' then removeDots cs else x :: removeDots rest
+/-- remove every `...` (`str.replace("...", "")`, leftmost non-overlapping): left-to-right scan,
+    `k` = number of dots read and not yet emitted (0, 1 or 2) -/
+def removeDotsGo : Nat → Str → Str
+  | k, [] => List.replicate k '.'
+  | k, c :: cs =>
+    if c = '.' then (if k = 2 then removeDotsGo 0 cs else removeDotsGo (k + 1) cs)
+    else List.replicate k '.' ++ c :: removeDotsGo 0 cs
+
+def removeDots (s : Str) : Str := removeDotsGo 0 s
 
 def endsWithDots (s : Str) : Bool := "...".toList.isSuffixOf s
 
 def isIdentChar (c : Char) : Bool := c.isAlphanum || c == '_'
 
-/-- cut at `{identifier}`; anything else involving braces is outside the modelled fragment.
-    `cur` = literal text read so far (reversed), `name` = `some` reversed name while inside braces. -/
+/-- does the text read so far inside `{…}` already contain a conversion / format-spec marker? -/
+def inSpec (nm : Str) : Bool := nm.any (fun c => c == ':' || c == '!')
+
+/-- cut at `{identifier}` and `{identifier!c:spec}` (the whole text between the braces becomes the
+    reference's key); `{{`, `}}`, attribute/item lookups and nested braces are outside the modelled fragment.
+    `cur` = literal text read so far (reversed), `name` = `some` reversed key while inside braces. -/
 def parseSegs : Str → Option Str → Str → Except Err (List Seg)
   | cur, none, [] => .ok (if cur.isEmpty then [] else [.lit cur.reverse])
   | _, some _, [] => .error .format
@@ -269,8 +276,15 @@ def parseSegs : Str → Option Str → Str → Except Err (List Seg)
   | cur, some nm, c :: cs =>
     if c = '}' then
       (if nm.isEmpty then .error .format else (parseSegs [] none cs).map (.ref nm.reverse :: ·))
-    else if isIdentChar c then parseSegs cur (some (c :: nm)) cs
+    else if c = '{' then .error .format
+    else if isIdentChar c || inSpec nm || ((c == ':' || c == '!') && !nm.isEmpty) then parseSegs cur (some (c :: nm)) cs
     else .error .format
+
+/-- the text a segment list stands for -/
+def unparse : List Seg → Str
+  | [] => []
+  | .lit s :: r => s ++ unparse r
+  | .ref n :: r => '{' :: (n ++ '}' :: unparse r)
 
 def parseArgstr (raw : Str) : Except Err Argstr :=
   (parseSegs [] none (removeDots raw)).map (fun segs => ⟨raw, endsWithDots raw, segs⟩)
